@@ -127,6 +127,10 @@ func (e *c01env) certDER(class string) []byte {
 	switch class {
 	case "genuine":
 		return e.m.SignCert.Raw
+	case "genuine_pkcs1issued":
+		return e.m.SignCertPKCS1.Raw
+	case "genuine_sha384issued":
+		return e.m.SignCertPSS384.Raw
 	case "garbage":
 		return []byte("this is not a DER certificate at all")
 	case "self_signed_evil":
@@ -159,7 +163,7 @@ func (e *c01env) build() {
 	for i := range garbageSig {
 		garbageSig[i] = byte(i*7 + 3)
 	}
-	for _, cert := range []string{"genuine", "absent", "garbage", "self_signed_evil", "evil_chain"} {
+	for _, cert := range []string{"genuine", "genuine_pkcs1issued", "genuine_sha384issued", "absent", "garbage", "self_signed_evil", "evil_chain"} {
 		for _, prov := range []string{"old_none", "new_none", "new_clspec", "new_commit"} {
 			gs := GoldenSpec{Snp: map[uint32][]byte{2: e.snpMeas}, Tdx: []*epb.VMTdx_Measurement{{Mrtd: m.Mrtd}}, Digest: Meas("fw"), Cert: e.certDER(cert), Svn: 1}
 			switch prov {
@@ -216,7 +220,7 @@ func (e *c01env) build() {
 
 func (e *c01env) roots(class string) *x509.CertPool {
 	switch class {
-	case "empty":
+	case "empty", "emptyfile":
 		return x509.NewCertPool()
 	case "R":
 		return pool(e.m.RootCert)
@@ -237,6 +241,8 @@ func (e *c01env) rootsFile(class string) []byte {
 		return pemOf(e.m.RootCert, e.m.ForeignCert)
 	case "empty":
 		return []byte("no certificates in here")
+	case "emptyfile":
+		return []byte{}
 	}
 	return nil
 }
@@ -327,7 +333,13 @@ func (e *c01env) run(r Row) (accepted bool, errText string) {
 			default:
 				args = append([]string{"tdx", "validate", "quote.bin", "--endorsement", "endo.bin"}, rootArgs...)
 			}
-			_, err = RunCLI(files, now, nil, args...)
+			var getter verify.HTTPSGetter
+			if r.Roots == "emptyfile" {
+				// the default root is reachable and is the genuine root: an empty --root_cert file must still
+				// mean "the caller trusts nothing"
+				getter = &MapGetter{Body: map[string][]byte{gtb.DefaultRootURL: pemOf(e.m.RootCert)}}
+			}
+			_, err = RunCLI(files, now, getter, args...)
 		default:
 			err = fmt.Errorf("unknown entry %s", r.Entry)
 		}
@@ -401,7 +413,7 @@ func RunC01(run *vk.Run) {
 			return
 		}
 		r := Row{c.Row.Payload, c.Row.Sig, c.Row.Cert, c.Row.Roots, c.Row.Time, c.Row.Prov, c.Row.Entry}
-		specAuth := r.Sig == "valid" && r.Payload != "unparseable" && r.Cert == "genuine" && (r.Roots == "R" || r.Roots == "R_and_foreign") && (r.Time == "nb" || r.Time == "inside" || r.Time == "na")
+		specAuth := r.Sig == "valid" && r.Payload != "unparseable" && strings.HasPrefix(r.Cert, "genuine") && (r.Roots == "R" || r.Roots == "R_and_foreign") && (r.Time == "nb" || r.Time == "inside" || r.Time == "na")
 		// independent concrete oracle
 		sigOK := env.oracle[r.Cert+"|"+r.Payload+"|"+r.Prov+"|"+r.Sig] && r.Payload != "unparseable"
 		chainOK := false
@@ -417,7 +429,7 @@ func RunC01(run *vk.Run) {
 		if acc && !specAuth {
 			why := "signature"
 			switch {
-			case sigOK && r.Cert != "genuine":
+			case sigOK && !strings.HasPrefix(r.Cert, "genuine"):
 				why = "certificate"
 			case sigOK && !(r.Roots == "R" || r.Roots == "R_and_foreign"):
 				why = "roots"
@@ -439,7 +451,7 @@ func RunC01(run *vk.Run) {
 			}
 			mu.Unlock()
 		}
-		run.Case(string(em.Cases[i]), r.Sig != "valid" || r.Cert != "genuine")
+		run.Case(string(em.Cases[i]), r.Sig != "valid" || !strings.HasPrefix(r.Cert, "genuine"))
 		if i%25013 == 0 {
 			run.Sample(map[string]any{"row": r, "spec_result": c.Result, "real_accepted": acc, "real_error": et})
 		}
